@@ -259,15 +259,18 @@ class Check:
                                  stdout=subprocess.DEVNULL, stderr=subprocess.DEVNULL, env=env)
             # the progress file ("<position> <case id|done>") is rewritten for every case: a read may see it
             # empty or half written, so only successfully parsed positions count
+            # Long-running cases may "tick" by rewriting the file with extra tokens after the first two: any
+            # change of a well-formed content counts as progress.
             def read_progress():
                 try:
-                    t = open(prog).read().split()
+                    raw = open(prog).read()
+                    t = raw.split()
                     if len(t) >= 2:
-                        return int(t[0]), t[1] == "done"
+                        return int(t[0]), t[1] == "done", raw
                 except (FileNotFoundError, ValueError):
                     pass
                 return None
-            last_pos, last_t = frm - 1, time.time()
+            last_pos, last_raw, last_t = frm - 1, None, time.time()
             done, status = False, None
             while True:
                 try:
@@ -277,8 +280,8 @@ class Check:
                     pass
                 pr = read_progress()
                 if pr is not None:
-                    if pr[0] != last_pos:
-                        last_pos, last_t = pr[0], time.time()
+                    if pr[0] != last_pos or pr[2] != last_raw:
+                        last_pos, last_raw, last_t = pr[0], pr[2], time.time()
                     done = done or pr[1]
                 if status == "exit":
                     break
